@@ -307,6 +307,11 @@ namespace GeographicLib {
                      const GeodesicLine& lineY,
                      Math::real maxdist, const XPoint& p0) const {
     real maxdistx = maxdist + _delta;
+    using std::isnan;
+    if (isnan(maxdistx)) return vector<XPoint>();
+    // The number of tiles is m^2; ensure that this doesn't overflow
+    if (!(maxdistx < 40000 * _d3))
+      throw GeographicErr("maxdist is too large in Intersect::All");
     const int m = int(ceil(maxdistx / _d3)), // process m x m set of tiles
       m2 = m*m + (m - 1) % 2,                // add center tile if m is even
       n = m - 1;                             // Range of i, j = [-n:2:n]
